@@ -26,7 +26,7 @@ RULE = ('(1) all non-empty subsets of present minutes for interval lengths 1..10
 ASSUMPTIONS = ['an exception is acceptable for a candle / batch whose timestamps are older than the stored ones and unknown, as long '
                'as the store is left unchanged', 'bulk adds that overlap the stored tail are no longer than the stored series']
 MIN_OBS = {'fill_cases_with_candles_outside_or_repeated': 300, 'fill_cases_batch_as_long_as_interval_but_incomplete': 100, 'fill_cases': 2000, 'fill_missing_minutes': 5000, 'store_ops': 3000, 'store_replacements': 300,
-           'store_bulk_overlaps': 100, 'spacing_cases': 6, 'spacing_cases_with_warmup': 4, 'route_sessions': 30, 'fast_route_sessions': 10,
+           'store_bulk_overlaps': 100, 'spacing_cases': 6, 'spacing_cases_with_warmup': 4, 'route_sessions': 30, 'fast_route_sessions': 10, 'route_sessions_with_forced_closes': 4,
            'series_observations': 3000, 'finer_data_route_observations': 200, 'stored_candles_compared': 5000}
 EXHAUSTIVE_NOTE = 'part (1): every non-empty subset of present minutes for every interval length 1..10 (2036 patterns) in both tiers'
 
@@ -399,6 +399,14 @@ def _part4(job):
                                        'entry': rng.choice(['market', 'limit', 'stop'])}} for s_, t_ in trading],
                 'data_routes': [{'symbol': s_, 'timeframe': t_} for s_, t_ in data], 'warmup': w, 'fast': fast,
                 'candles': {s_: gen.random_spec(rng, n, 'walk') for s_ in syms if any(s_ == x for x, _ in trading + data)}}
+        if rng.random() < 0.3:
+            # isolated margin at high leverage without stops: forced closes happen in the middle of sessions (their handling
+            # touches the larger-timeframe series of the store as well)
+            spec['config'] = {'starting_balance': 10000, 'fee': 0.0005, 'type': 'futures', 'futures_leverage': rng.choice([20, 50]),
+                              'futures_leverage_mode': 'isolated'}
+            for r_ in spec['routes']:
+                r_['script'].update(sl=None, tp=0.02, entry='market', p_enter=0.6)
+            cnt['route_sessions_isolated'] = cnt.get('route_sessions_isolated', 0) + 1
         allc = session.build_candles(spec)
         t0 = {s_: int(a[0, 0]) for s_, a in allc.items()}
         considered = sorted({t_ for _, t_ in trading + data} | {'1m'})
@@ -467,13 +475,18 @@ def _part4(job):
                 look(int(e['t']), e['hook'] == 'terminate')
             elif e['k'] == 'exec_ret':
                 state['fills'] += 1
+            elif e['k'] == 'liq_exit' and e.get('liq_total'):
+                state['liq'] = 1
 
         out = session.run_session(spec, subs=[sub], keep_events=False, snapshots=False, candles=allc)
         cnt['route_sessions'] = cnt.get('route_sessions', 0) + 1
         if fast:
             cnt['fast_route_sessions'] = cnt.get('fast_route_sessions', 0) + 1
         cnt['fills_in_route_sessions'] = cnt.get('fills_in_route_sessions', 0) + state['fills']
-        if out['error']:
+        cnt['route_sessions_with_forced_closes'] = cnt.get('route_sessions_with_forced_closes', 0) + state.get('liq', 0)
+        if out['error'] and out['error']['type'] in ('InsufficientMargin', 'InsufficientBalance'):
+            cnt['route_sessions_ended_out_of_money'] = cnt.get('route_sessions_ended_out_of_money', 0) + 1     # (a strategy's business)
+        elif out['error']:
             bad('route_session_raised:' + out['error']['type'], out['error']['msg'], tb=out['error']['tb'])
         sigs.append(repr(('routes', tuple(sorted(t_ for _, t_ in trading)), tuple(sorted(t_ for _, t_ in data)), fast, w)))
     return {'viol': _dedup(viol), 'cnt': cnt, 'sigs': sigs}
